@@ -44,8 +44,10 @@ TNew(n, s)     == [k |-> "newtype", name |-> n, sup |-> s]
 TAnnot(t, c)   == [k |-> "annot", t |-> t, cons |-> c]
 TObj(c)        == [k |-> "obj", cls |-> c]
 TOpt(t)        == TUnion(<<t, TPrim("none")>>)
-\* discriminated union of object types: datum[alias] = keys[i] selects alts[i]
-TDUnion(alts, alias, keys) == [k |-> "dunion", alts |-> alts, alias |-> alias, keys |-> keys]
+\* discriminated union of object types: datum[alias] \in keys[i] selects alts[i].
+\* mode "default": the mapping is the implicit one (the values of the alternative's Literal
+\* field aliased `alias` when it has one, else its type name); "explicit": passed by the user
+TDUnion(alts, alias, keys, mode) == [k |-> "dunion", alts |-> alts, alias |-> alias, keys |-> keys, mode |-> mode]
 
 ---------------------------------------------------------------------------
 \* Naming: external name of a field under the per-call / global aliaser.
@@ -185,6 +187,10 @@ PrimStrict(ctx, p, cons, d) ==
 Unspecified == [ok |-> TRUE, v |-> [k |-> "unspecified"], e |-> {}, x |-> {}]
 IsUnspec(r) == r.ok /\ r.v.k = "unspecified"
 
+\* what a child outcome allows in addition: its own allowed set, or anything at all below an
+\* unspecified node (entry <<loc, "ANY">> of an allowed set = any error at or below loc)
+XOf(r) == IF IsUnspec(r) THEN {<< <<>>, "ANY" >>} ELSE IF r.ok THEN {} ELSE r.x
+
 RPrim(ctx, p, cons, d) ==
   IF ~ctx.O.coerce THEN PrimStrict(ctx, p, cons, d)
   ELSE LET c == CoerceTo(ctx, p, d) IN
@@ -206,6 +212,12 @@ LitKindsJson(vals) == {JsonKind(vals[i]) : i \in DOMAIN vals}
 LitErr(vals, d) ==
   IF d.k \in {"arr", "obj"} THEN Errs({"type:" \o j : j \in LitKindsJson(vals)})
   ELSE Err("oneOf")
+
+\* under coercion a failed coercion to one of the literal classes may be reported as a bad
+\* type instead of "oneOf": something must be reported here, which of the two is left open
+LitBad(ctx, vals, d) ==
+  IF ~ctx.O.coerce THEN Bad(LitErr(vals, d))
+  ELSE BadX({<< <<>>, "ANY" >>}, Err("oneOf") \cup Errs({"type:" \o j : j \in LitKindsJson(vals)}))
 
 \* the classes (as primitive type names) of the literal values, for coercion
 KindPrim(kk) == CASE kk = "null" -> "none" [] kk = "bool" -> "bool" [] kk = "int" -> "int"
@@ -258,6 +270,7 @@ SubObj(d, keyset) == DObj(SelectSeq(d.o, LAMBDA p : p[1] \in keyset))
 
 RECURSIVE RD(_, _, _, _)
 RECURSIVE RObj(_, _, _, _, _)
+RECURSIVE MUnion(_, _, _, _)
 
 \* deserialization of one object.  `disc` is the discriminator key tolerated
 \* in the data ("" when the object is not reached through a discriminated union)
@@ -282,7 +295,7 @@ RObj(ctx, cls, cons, d, disc) ==
                     /\ \E g \in Range(fs) : g.name = K.depreq[j][1] /\ Ext(ctx, g) \in keys
              THEN Under(Ext(ctx, f), Err("missing"))
         ELSE {}
-      fErrX(f) == IF present(f) /\ ~fres(f).ok /\ ~ignored(f) THEN Under(Ext(ctx, f), fres(f).x) ELSE {}
+      fErrX(f) == IF present(f) /\ ~ignored(f) THEN Under(Ext(ctx, f), XOf(fres(f))) ELSE {}
       unspecF(f) == present(f) /\ IsUnspec(fres(f))
       fVal(f)  == IF present(f) /\ fres(f).ok THEN fres(f).v ELSE f.dv
       \* ---- aggregate fields, attributed in order: flattened, pattern, additional
@@ -307,7 +320,7 @@ RObj(ctx, cls, cons, d, disc) ==
       ares(f)  == RD(ctx, FType(f), f.cons, aggData(f))
       aIgn(f)  == ~ares(f).ok /\ FFallBack(ctx, f)
       aErr(f)  == IF ares(f).ok \/ aIgn(f) THEN {} ELSE ares(f).e     \* merged at the parent's level
-      aErrX(f) == IF ares(f).ok \/ aIgn(f) THEN {} ELSE ares(f).x
+      aErrX(f) == IF aIgn(f) THEN {} ELSE XOf(ares(f))
       aVal(f)  == IF ares(f).ok THEN ares(f).v ELSE f.dv
       left     == IF adds # <<>> THEN {} ELSE remain2 \ {disc}
       unexpected == IF ctx.O.addl THEN {} ELSE UNION {Under(key, Err("unexpected")) : key \in left}
@@ -337,6 +350,65 @@ RObj(ctx, cls, cons, d, disc) ==
      ELSE Ok(image)
 
 ---------------------------------------------------------------------------
+(***************************************************************************)
+(* Layer M for unions (ctx.O.impl = TRUE): the three strategies selected by *)
+(* DeserializationMethodVisitor.union -- OptionalMethod, UnionByTypeMethod  *)
+(* (dispatch on the class of the datum) and UnionMethod (try in order) --   *)
+(* as the code selects and executes them.  That each strategy gives what    *)
+(* "the first accepting alternative" gives is the obligation TLC checks     *)
+(* (C13); every other node has the same shape in the code as in Layer R.    *)
+(***************************************************************************)
+\* the class a method factory declares (DeserializationMethodFactory.cls), "" when none
+RECURSIVE AltCls(_)
+AltCls(t) == CASE t.k = "prim"    -> t.p
+               [] t.k \in {"coll", "tuple"} -> "list"
+               [] t.k \in {"map", "obj"}    -> "dict"
+               [] t.k = "newtype" -> AltCls(t.sup)
+               [] t.k = "annot"   -> AltCls(t.t)
+               [] OTHER           -> ""
+ClsJson(c) == CASE c = "list" -> "array" [] c = "dict" -> "object" [] OTHER -> PrimJson(c)
+DataCls(d) == CASE d.k = "null" -> "none" [] d.k = "arr" -> "list" [] d.k = "obj" -> "dict" [] OTHER -> d.k
+
+UnionStrategy(ctx, T) ==
+  LET cls == [i \in DOMAIN T.alts |-> AltCls(T.alts[i])] IN
+  IF Len(T.alts) = 2 /\ \E i \in DOMAIN T.alts : T.alts[i] = TPrim("none") THEN "optional"
+  ELSE IF /\ \A i \in DOMAIN cls : cls[i] # ""
+          /\ \A i, j \in DOMAIN cls : i # j => cls[i] # cls[j]
+          /\ ~ctx.O.coerce            \* every alternative with a class is a CoercerMethod under coercion
+       THEN "bytype"
+  ELSE "sequential"
+
+MUnion(ctx, T, cons, d) ==
+  LET strat == UnionStrategy(ctx, T)
+      r     == [i \in DOMAIN T.alts |-> RD(ctx, T.alts[i], cons, d)]
+      cls   == [i \in DOMAIN T.alts |-> AltCls(T.alts[i])]
+  IN
+  CASE strat = "optional" ->
+         LET vi == CHOOSE i \in DOMAIN T.alts : T.alts[i] # TPrim("none") IN
+         IF d.k = "null" THEN Ok(DNull)
+         ELSE IF r[vi].ok THEN r[vi]
+         ELSE IF ctx.O.coerce /\ CoerceTo(ctx, "none", d)[1] = "ok" THEN Ok(DNull)
+         ELSE BadX(r[vi].e \cup Err("type:null"), r[vi].x)
+    [] strat = "bytype" ->
+         LET dc   == IF DataCls(d) = "int" /\ \A i \in DOMAIN cls : cls[i] # "int" THEN "float" ELSE DataCls(d)
+             hit  == {i \in DOMAIN cls : cls[i] = dc}
+             \* an integer rejected by the int alternative is still tried as a number (deviation
+             \* "nofloatfallback" is the by-type dispatch of the pinned tree, repaired by a fix: commit)
+             fl   == IF dc = "int" /\ "nofloatfallback" \notin ctx.O.dev
+                     THEN {i \in DOMAIN cls : cls[i] = "float"} ELSE {}
+         IN IF hit = {} THEN Bad(Errs({"type:" \o ClsJson(cls[i]) : i \in DOMAIN cls}))
+            ELSE LET i == CHOOSE j \in hit : TRUE IN
+                 IF r[i].ok THEN r[i]
+                 ELSE IF fl # {} /\ r[CHOOSE j \in fl : TRUE].ok THEN r[CHOOSE j \in fl : TRUE]
+                 ELSE LET tried == {i} \cup fl IN
+                      BadX(UNION {r[j].e : j \in tried}
+                             \cup Errs({"type:" \o ClsJson(cls[j]) : j \in DOMAIN cls \ tried}),
+                           UNION {r[j].x : j \in tried})
+    [] OTHER ->
+         LET oks == {i \in DOMAIN r : r[i].ok} IN
+         IF oks # {} THEN r[CHOOSE i \in oks : \A j \in oks : i <= j]
+         ELSE BadX(UNION {r[i].e : i \in DOMAIN r}, UNION {r[i].x : i \in DOMAIN r})
+
 RD(ctx, T, cons, d) ==
   CASE T.k = "prim"    -> RPrim(ctx, T.p, cons, d)
     [] T.k = "any"     ->
@@ -353,7 +425,7 @@ RD(ctx, T, cons, d) ==
          ELSE LET r    == [i \in DOMAIN d.a |-> RD(ctx, T.e, <<>>, d.a[i])]
                   own  == Errs(ArrViol(NormCons(cons), d))
                   sub  == UNION {IF r[i].ok THEN {} ELSE Under(Idx(i), r[i].e) : i \in DOMAIN r}
-                  subx == UNION {IF r[i].ok THEN {} ELSE Under(Idx(i), r[i].x) : i \in DOMAIN r}
+                  subx == UNION {Under(Idx(i), XOf(r[i])) : i \in DOMAIN r}
                   vs   == [i \in DOMAIN r |-> r[i].v]
               IN IF own \cup sub # {} THEN BadX(own \cup sub, subx)
                  ELSE IF \E i \in DOMAIN r : IsUnspec(r[i]) THEN Unspecified
@@ -368,7 +440,7 @@ RD(ctx, T, cons, d) ==
          ELSE LET r    == [i \in DOMAIN d.a |-> RD(ctx, T.es[i], <<>>, d.a[i])]
                   own  == Errs(ArrViol(NormCons(cons), d))
                   sub  == UNION {IF r[i].ok THEN {} ELSE Under(Idx(i), r[i].e) : i \in DOMAIN r}
-                  subx == UNION {IF r[i].ok THEN {} ELSE Under(Idx(i), r[i].x) : i \in DOMAIN r}
+                  subx == UNION {Under(Idx(i), XOf(r[i])) : i \in DOMAIN r}
               IN IF own \cup sub # {} THEN BadX(own \cup sub, subx)
                  ELSE IF \E i \in DOMAIN r : IsUnspec(r[i]) THEN Unspecified
                  ELSE Ok(VTuple([i \in DOMAIN r |-> r[i].v]))
@@ -383,12 +455,15 @@ RD(ctx, T, cons, d) ==
                   sub  == UNION {IF ~kr[i].ok /\ ~vr[i].ok THEN {<< <<d.o[i][1]>>, "ANY" >>}
                                  ELSE IF ~kr[i].ok THEN Under(d.o[i][1], kr[i].e)
                                  ELSE IF ~vr[i].ok THEN Under(d.o[i][1], vr[i].e) ELSE {} : i \in DOMAIN d.o}
-                  subx == UNION {(IF ~kr[i].ok THEN Under(d.o[i][1], kr[i].e \cup kr[i].x) ELSE {})
-                                 \cup (IF ~vr[i].ok THEN Under(d.o[i][1], vr[i].e \cup vr[i].x) ELSE {}) : i \in DOMAIN d.o}
+                  subx == UNION {(IF ~kr[i].ok THEN Under(d.o[i][1], kr[i].e) ELSE {})
+                                 \cup (IF ~vr[i].ok THEN Under(d.o[i][1], vr[i].e) ELSE {})
+                                 \cup Under(d.o[i][1], XOf(kr[i]) \cup XOf(vr[i])) : i \in DOMAIN d.o}
               IN IF own \cup sub # {} THEN BadX(own \cup sub, subx)
                  ELSE IF \E i \in DOMAIN d.o : IsUnspec(kr[i]) \/ IsUnspec(vr[i]) THEN Unspecified
                  ELSE Ok(VDict([i \in DOMAIN d.o |-> <<kr[i].v, vr[i].v>>]))
     [] T.k = "union"   ->
+         IF ctx.O.impl THEN MUnion(ctx, T, cons, d)
+         ELSE
          LET r   == [i \in DOMAIN T.alts |-> RD(ctx, T.alts[i], cons, d)]
              oks == {i \in DOMAIN r : r[i].ok}
              isOpt == Len(T.alts) = 2 /\ \E i \in DOMAIN T.alts : T.alts[i] = TPrim("none")
@@ -398,15 +473,15 @@ RD(ctx, T, cons, d) ==
                  IF ctx.O.coerce /\ isOpt /\ d.k # "null" /\ Cardinality(oks) = 2
                    THEN r[CHOOSE i \in oks : T.alts[i] # TPrim("none")]
                  ELSE r[first]
-            ELSE BadX(UNION {r[i].e : i \in DOMAIN r}, UNION {r[i].x : i \in DOMAIN r})
+            ELSE BadX(UNION {r[i].e : i \in DOMAIN r}, UNION {XOf(r[i]) : i \in DOMAIN r})
     [] T.k = "lit"     ->
          LET i == RLitIdx(ctx, T.vals, d) IN
-           IF i > 0 THEN Ok(T.vals[i]) ELSE IF i = 0 THEN Bad(LitErr(T.vals, d)) ELSE Unspecified
+           IF i > 0 THEN Ok(T.vals[i]) ELSE IF i = 0 THEN LitBad(ctx, T.vals, d) ELSE Unspecified
     [] T.k = "enum"    ->
          LET ms   == ctx.En[T.cls]
              vals == [i \in DOMAIN ms |-> ms[i][2]]
              i    == RLitIdx(ctx, vals, d)
-         IN IF i > 0 THEN Ok(VEnum(T.cls, ms[i][1])) ELSE IF i = 0 THEN Bad(LitErr(vals, d)) ELSE Unspecified
+         IN IF i > 0 THEN Ok(VEnum(T.cls, ms[i][1])) ELSE IF i = 0 THEN LitBad(ctx, vals, d) ELSE Unspecified
     [] T.k = "obj"     -> RObj(ctx, T.cls, cons, d, "")
     [] T.k = "dunion"  ->
          \* the discriminator property selects the alternative; it is tolerated in the
@@ -415,7 +490,7 @@ RD(ctx, T, cons, d) ==
          IF d.k # "obj" THEN Bad(Err("type:object"))
          ELSE IF ~HasKey(d.o, al) THEN Bad(Under(al, Err("missing")))
          ELSE LET tag == Get(d.o, al)
-                  hit == {i \in DOMAIN T.keys : tag.k = "str" /\ T.keys[i] = tag.s}
+                  hit == {i \in DOMAIN T.keys : tag.k = "str" /\ \E j \in DOMAIN T.keys[i] : T.keys[i][j] = tag.s}
               IN IF hit = {} THEN Bad(Under(al, Err("oneOf")))
                  ELSE RObj(ctx, Unwrap(T.alts[CHOOSE i \in hit : TRUE]).cls, cons, d, al)
 
